@@ -120,8 +120,8 @@ def c13(ctx):
     purity.r_state_closure(ctx, GR + 'obtain_latters', GR + 'obtain_formers', GR + 'get_complete_accessor', OP + 'number_to_dna', OP + 'dna_to_number', GR + 'latter_map_to_accessor', GR + 'adjacency_matrix_to_accessor', SW + 'connect_valid_graph', SW + 'connect_coding_graph')
     graph.r_shift(ctx, with_latter=True)
     graph.r_kplumb(ctx, None, floor=11)
-    graph2.r_arc(ctx, ctx.p.funcs.keys(), floor=8, derived=False)
-    live.r_alpha(ctx, ctx.p.funcs.keys(), floor=10)
+    graph2.r_arc(ctx, ctx.reachable(), floor=8, derived=False)
+    live.r_alpha(ctx, ctx.reachable(), floor=10)
     misc2.r_conv(ctx)
 
 
@@ -207,7 +207,7 @@ def c16(ctx):
     purity.r_state_closure(ctx, OP + 'bit_to_number', OP + 'number_to_bit', OP + 'dna_to_number', OP + 'number_to_dna')
     misc2.r_conv(ctx)
     live.r_alpha(ctx, [OP + 'dna_to_number', OP + 'number_to_dna'], floor=2)
-    exc.r_typed_dispatch(ctx, ctx.p.funcs.keys(), floor=5)
+    exc.r_typed_dispatch(ctx, ctx.reachable(), floor=5)
 
 
 def c18(ctx):
@@ -233,7 +233,7 @@ def c20(ctx):
     purity.r_state(ctx)
     purity.r_verb(ctx, floor_funcs=10)
     purity.r_monitor(ctx)
-    exc.r_typed_dispatch(ctx, ctx.p.funcs.keys(), floor=5)
+    exc.r_typed_dispatch(ctx, ctx.reachable(), floor=5)
 
 
 PROPERTIES = {
